@@ -149,3 +149,13 @@ for kb in (False, True):
     show('F16', "sig_relaxation primal, kernel_basis=%s (want 1.0)" % kb,
          lambda: so.sig_relaxation(f16, form='primal').solve(verbose=False))
 cl.kernel_basis_age_witnesses(False)
+
+# F17 (C08): equal affine Expressions reported as not equivalent; scalar-level numpy scalar types
+x = cl.Variable(shape=(2,), name='x17')
+y = cl.Variable(shape=(2,), name='y17')
+show('F17', "are_equivalent(x - x + y, y) (want True)", lambda: Expression.are_equivalent(x - x + y, y))
+show('F17', "x[0] * np.int8(2) (array-level x * np.int8(2) works)", lambda: (x[0] * np.int8(2)).atoms_to_coeffs)
+
+# F18 (C12): from_dict caches an unnormalised alpha_c
+s18 = Signomial.from_dict({(1.00000001, 0): 1.0, (1.0, 0): 2.0})
+show('F18', "(c, query_coeff((1,0))) (want the same number)", lambda: (s18.c.tolist(), s18.query_coeff(np.array([1.0, 0.0]))))
